@@ -790,7 +790,7 @@ func checkC05(r *core.Run) {
 		scs = append(scs, c05Scenario(k))
 	}
 	histExtra = c05Extra
-	histRun(r, c05Clauses, scs, func(*hist.Scenario) []hist.Op { return c05Alphabet() }, depth, false)
+	histRun(r, c05Clauses, scs, func(*hist.Scenario) []hist.Op { return c05Alphabet() }, depth, true) // guarded: an analysis that does not return ends the scenario instead of the check
 	histExtra = nil
 	r.Sample(map[string]string{"scenario": "fail-branch-mismatch", "history": renderOps(c05Alphabet()[:3])})
 	r.Assume("reference model: a set's results are those of a freshly built set with the same definition calls; analysis errors are recognised as *template.Error / 'incomplete' / 'undefined' errors")
